@@ -7,6 +7,7 @@ From ZV.C07 Require Import Model ProofsArith ProofsLockFree ProofsProps ProofsBu
 From ZV.C07 Require Import ModelFive ProofsFiveArith ProofsFive ProofsFiveProps Cases.
 From ZV.C07 Require Import ModelTL ProofsTL ProofsTLProps.
 From ZV.C07 Require Import ModelTiered ProofsTiered ProofsTieredProps.
+From ZV.C07 Require Import ModelSecure ProofsSecure.
 Open Scope N_scope.
 
 (* any two live allocations occupy disjoint byte ranges - for every history and every arena size *)
@@ -447,3 +448,60 @@ Check tiered_inv :
     (forall j ch, (j < 6)%nat -> In ch (mp_q (nth j (ts_pools (tt_p s)) (mkMP 0 []))) ->
        fst ch = j /\ forall tag ch' size, In (tag, ch', size) (tt_live s) -> pooled tag = true -> snd ch' <> snd ch).
 Print Assumptions tiered_inv.
+
+(* ------------------------------------------------------------------------------------------- *)
+(* SecureMemoryPool chunk bookkeeping (ModelSecure.v)                                          *)
+(* ------------------------------------------------------------------------------------------- *)
+(* SecureMemoryPool chunk bookkeeping: for every local_cache_size and every history of allocate / guard drop, every chunk the
+   pool ever created is in exactly one place - the local cache, the shared stack, or handed out - and nothing else is *)
+Theorem secure_no_chunk_lost :
+  forall lcache ops x,
+    let s := s_final lcache ops in
+    occ x (sc_cache (ss_p s)) + occ x (sc_stack (ss_p s)) + occ x (ss_live s) = if x <? sc_n (ss_p s) then 1 else 0.
+Proof. exact secure_no_chunk_lost_proof. Qed.
+Check secure_no_chunk_lost :
+  forall lcache ops x,
+    let s := s_final lcache ops in
+    occ x (sc_cache (ss_p s)) + occ x (sc_stack (ss_p s)) + occ x (ss_live s) = if x <? sc_n (ss_p s) then 1 else 0.
+Print Assumptions secure_no_chunk_lost.
+
+(* dropping the guard of a live chunk is never reported as a double free: the chunk goes on top of the local cache or of the shared stack *)
+Theorem secure_free_accepted :
+  forall lcache ops l1 l2 ch,
+    ss_live (s_final lcache ops) = l1 ++ ch :: l2 ->
+    exists p', s_free lcache (ss_p (s_final lcache ops)) ch = (true, p') /\
+      (sc_cache p' = ch :: sc_cache (ss_p (s_final lcache ops)) \/ sc_stack p' = ch :: sc_stack (ss_p (s_final lcache ops))).
+Proof. exact secure_free_accepted_proof. Qed.
+Check secure_free_accepted :
+  forall lcache ops l1 l2 ch,
+    ss_live (s_final lcache ops) = l1 ++ ch :: l2 ->
+    exists p', s_free lcache (ss_p (s_final lcache ops)) ch = (true, p') /\
+      (sc_cache p' = ch :: sc_cache (ss_p (s_final lcache ops)) \/ sc_stack p' = ch :: sc_stack (ss_p (s_final lcache ops))).
+Print Assumptions secure_free_accepted.
+
+(* the active-allocation table maps exactly the handed-out chunks to their generations (no stale entry, none missing) *)
+Theorem secure_active_exact :
+  forall lcache ops,
+    let s := s_final lcache ops in
+    (forall ch, In ch (ss_live s) -> act_lookup (fst ch) (sc_active (ss_p s)) = Some (snd ch)) /\
+    (forall id g, act_lookup id (sc_active (ss_p s)) = Some g -> In (id, g) (ss_live s)).
+Proof. exact secure_active_exact_proof. Qed.
+Check secure_active_exact :
+  forall lcache ops,
+    let s := s_final lcache ops in
+    (forall ch, In ch (ss_live s) -> act_lookup (fst ch) (sc_active (ss_p s)) = Some (snd ch)) /\
+    (forall id g, act_lookup id (sc_active (ss_p s)) = Some g -> In (id, g) (ss_live s)).
+Print Assumptions secure_active_exact.
+
+(* deallocate_internal of a chunk that is not handed out (a second free, or a pointer the pool never issued) is reported as
+   an error and leaves the pool unchanged - a model-level statement: the RAII guards make this path unreachable for clients *)
+Theorem secure_double_free_detected :
+  forall lcache ops ch,
+    let s := s_final lcache ops in
+    occ (fst ch) (ss_live s) = 0 -> s_free lcache (ss_p s) ch = (false, ss_p s).
+Proof. exact secure_double_free_detected_proof. Qed.
+Check secure_double_free_detected :
+  forall lcache ops ch,
+    let s := s_final lcache ops in
+    occ (fst ch) (ss_live s) = 0 -> s_free lcache (ss_p s) ch = (false, ss_p s).
+Print Assumptions secure_double_free_detected.
